@@ -43,7 +43,7 @@ def gen(rng):
             "nested_in_map": rng.random() < 0.4, "shutdown": rng.random() < 0.4, "fail": rng.random() < 0.3,
             # a timeout that really fires (on work blocked until t=5, queued behind a small pool): the timeout thread then
             # cancels futures and runs their done-callbacks, which may submit again
-            "timeout": rng.choice([10 ** 6, 10 ** 6, 2]), "workers": rng.choice([1, 2])}
+            "timeout": rng.choice([10 ** 6, 10 ** 6, 2]), "workers": rng.choice([1, 2]), "poll_faults": rng.random() < 0.4}
 
 
 RERUNS = 30
@@ -95,7 +95,10 @@ def run_once(p, chooser):
                 elif k == "flat_map":
                     ex = ex.with_flat_map(lambda v: f_return(v))
                 elif k == "poll":
-                    def poll_fn(ds):
+                    def poll_fn(ds, st={"n": 0}):
+                        st["n"] += 1
+                        if p.get("poll_faults") and ds and st["n"] % 2 == 1:
+                            raise KeyError("poll")        # the futures it was shown fail; their done-callbacks run on the poll thread
                         for d in ds:
                             d.yield_result(d.result)
                     ex = ex.with_poll(poll_fn, default_interval=1)
